@@ -130,6 +130,7 @@ class Micro:
         self.blocks: list[dict] = []           # {"ops": [(code, a, b, src_op_index)], "term": (...)}
         self.unmodelled: str | None = None
         self.idioms: dict[str, int] = {}       # trusted idioms applied (counted into the evidence)
+        self.slot_names: dict[int, str] = {}   # pseudo-variables for attribute slots initialised by the function
 
 
 def flatten(fd: dict) -> Micro:
@@ -150,8 +151,24 @@ def flatten(fd: dict) -> Micro:
         if is_rc(v):
             m.var_of[v["id"]] = len(m.val_of)
             m.val_of.append(v["id"])
-    m.nvars = len(m.val_of)
     var = m.var_of
+    # attribute slots that this function initialises (`SetAttr(is_init=True)`: the emitted C does not release an old
+    # value): one pseudo-variable per (object value, attribute) = the reference the function has put into that slot.
+    reassigned = {op["dest"] for b in fd["blocks"] for op in b["ops"] if op["op"] in ("Assign", "AssignMulti")}
+    slots: dict[tuple[int, str], int] = {}
+    for b in fd["blocks"]:
+        for op in b["ops"]:
+            if op["op"] == "SetAttr" and op.get("is_init") and op.get("attr_rc", True) and op["obj"] not in reassigned:
+                key = (op["obj"], op["attr"])
+                if key not in slots:
+                    slots[key] = len(m.val_of) + len(slots)
+    def_op = {op["dest"]: op["op"] for b in fd["blocks"] for op in b["ops"]
+              if op.get("dest") is not None and op["op"] not in ("Assign", "AssignMulti")}
+    m.slot_names = {sv: f"slot {vals[o]['name'] or 'v%d' % o}.{a}" for (o, a), sv in slots.items()}
+    m.nvars = len(m.val_of) + len(slots)
+    slot_objs: dict[int, list[int]] = {}
+    for (o, a), sv in slots.items():
+        slot_objs.setdefault(o, []).append(sv)
     for a in fd["args"]:
         if a["v"] in var:
             m.args.append((var[a["v"]], ARG_OPTIONAL if a["optional"] else ARG_BORROWED))
@@ -225,8 +242,14 @@ def flatten(fd: dict) -> Micro:
             term: Any = None
             blk_ops = b["ops"]
             pending_after: dict[int, list[int]] = {}
+            if bi_cur == 0:
+                for sv in slots.values():
+                    ops.append((DEFINE, sv, NULL, 0))          # a slot nobody has written yet holds NULL
             for oi, op in enumerate(blk_ops):
                 c = op["op"]
+                if c == "Return":
+                    for sv in slots.values():
+                        ops.append((DECREF, sv, 1, oi))        # the reference stays in the heap: not the frame's any more
                 for s in pending_after.pop(oi, []):
                     if s in var:
                         ops.append((STEAL, var[s], 0, oi))
@@ -347,6 +370,20 @@ def flatten(fd: dict) -> Micro:
                     for s in stolen:
                         if s in var:
                             ops.append((STEAL_MAYBE if c == "SetAttr" else STEAL, var[s], 0, oi))
+                    if c == "SetAttr" and (op["obj"], op["attr"]) in slots:
+                        sv = slots[(op["obj"], op["attr"])]
+                        if not op.get("is_init"):
+                            ops.append((DECREF, sv, 1, oi))    # a normal store releases the old value first
+                        # stuck if the slot already owns a reference: leak.  Constants (int literals, static literal
+                        # objects) are immortal: overwriting them loses nothing
+                        src_def = def_op.get(op["src"])
+                        const = op["src"] not in var or (src_def in ("LoadLiteral", "LoadAddress", "LoadStatic", "LoadGlobal"))
+                        ops.append((DEFINE, sv, IMM if const else OWNED, oi))
+                        idiom("init-slot")
+                    if op.get("dest") in slot_objs:
+                        for sv in slot_objs[op["dest"]]:        # a new object: its slots are empty again
+                            ops.append((DECREF, sv, 1, oi))
+                            ops.append((DEFINE, sv, NULL, oi))
                     if heap_borrowed and may_rebind(op):
                         for hv in clobbered_by(bi_cur, oi):
                             ops.append((CLOBBER, var[hv], 0, oi))
@@ -463,6 +500,8 @@ def show_op(m: Micro, fd: dict, mop: tuple) -> str:
     vals = fd["values"]
 
     def nm(v: int) -> str:
+        if v >= len(m.val_of):
+            return m.slot_names.get(v, f"slot{v}")
         x = vals[m.val_of[v]]
         return x["name"] or f"v{x['id']}"
     if code == DEFINE:
@@ -841,6 +880,9 @@ def describe_failure(m: Micro, fd: dict, bad: tuple) -> dict:
         out["ir_line"] = irop.get("line")
     else:
         out["micro_kind"] = mop[0]
+    if isinstance(v, int) and v >= len(m.val_of) and v in m.slot_names:
+        out["var"] = m.slot_names[v]
+        out["var_kind"] = "init-slot"
     if isinstance(v, int) and v < len(m.val_of):
         x = vals[m.val_of[v]]
         out["var"] = x["name"] or f"v{x['id']}"
